@@ -120,15 +120,19 @@ structure Params (V : Type) where
   /-- `Contour.move`: representation name, cached value, (dx, dy) ↦ patched value -/
   patch : String → V → Int → Int → V
 
-/-! ### declared mutators: method ↦ the cell it rewrites (the dependency matrix, mutator side) -/
+/-! ### declared mutators: method ↦ the cell it rewrites (the dependency matrix, mutator side)
+
+`.pts`: the point geometry; `.attr`: the identifiers (of the object, of its points); `.both`: a method that adds,
+removes or reorders points rewrites the list of point identifiers with them.  The public table with guards is
+`ReprCells.mutSpecs`; `Props.C03.cells_agree` checks that the two say the same. -/
 
 inductive CCell where | pts | attr | both
 deriving DecidableEq, Repr, Inhabited
 
 def contourMutators : List (String × CCell) :=
-  [("appendPoint", .pts), ("addPoint", .pts), ("insertPoint", .pts), ("removePoint", .pts),
-   ("setStartPoint", .pts), ("clear", .pts), ("reverse", .pts), ("_set_clockwise", .pts),
-   ("removeSegment", .pts), ("splitAndInsertPointAtSegmentAndT", .pts),
+  [("appendPoint", .both), ("addPoint", .both), ("insertPoint", .both), ("removePoint", .both),
+   ("setStartPoint", .both), ("clear", .both), ("reverse", .both), ("_set_clockwise", .both),
+   ("removeSegment", .both), ("splitAndInsertPointAtSegmentAndT", .pts),
    ("setDataFromSerialization", .both), ("_set_identifier", .attr), ("generateIdentifier", .attr),
    ("generateIdentifierForPoint", .attr), ("_set_dirty", .attr)]
 
@@ -347,6 +351,10 @@ inductive Op where
   | rename (old new : String)
   /-- an effective call of a declared Groups (dict) mutator -/
   | gset (meth : String)
+  /-- a call of method `meth` of `o` that runs to its `postNotification`s although it rewrites nothing
+  (`obj.dirty = True`, a dict assignment of the value already there, `Contour.clear()` of an empty contour …):
+  everything the method posts is delivered, no content cell changes -/
+  | touch (o : Obj) (meth : String)
 deriving Repr, Inhabited
 
 inductive Res where
@@ -356,7 +364,7 @@ inductive Res where
   | bool (b : Bool)
   | keys (l : List (String × SubKey))
   | err (e : String)
-deriving Repr, Inhabited
+deriving Repr, Inhabited, DecidableEq
 
 section Step
 variable {V : Type}
@@ -604,6 +612,24 @@ def doGset (T : Tables) (w : World V) (meth : String) : World V × Res :=
   let w1 := tick { w with groupsVer := w.clock }
   (applyDeliv T w1 ((T.postsOf "Groups" meth).map fun n => (Obj.groups, n)), .ok)
 
+/-- object `o` posts the notifications `ns`: everything that is delivered (to the object itself, then along the
+routes to its glyph and to whatever references that glyph), in the structure of `w` -/
+def postFrom (T : Tables) (w : World V) (o : Obj) (ns : List String) : List (Obj × String) :=
+  match o with
+  | .contour cid =>
+    match hostOfContour w.glyphs cid with
+    | some h => contourDeliv w.fuel T w.glyphs h.1 cid ns
+    | none => []
+  | .comp kid =>
+    match hostOfComp w.glyphs kid with
+    | some h => compDeliv w.fuel T w.glyphs h.1 kid ns
+    | none => []
+  | .glyph a => if AL.contains w.glyphs a then glyphDeliv w.fuel T w.glyphs a ns else []
+  | .groups => ns.map fun n => (Obj.groups, n)
+
+def doTouch (T : Tables) (w : World V) (o : Obj) (meth : String) : World V × Res :=
+  (applyDeliv T w (postFrom T w o (T.postsOf o.cls meth)), .ok)
+
 def step (P : Params V) (T : Tables) (w : World V) (op : Op) : World V × Res :=
   match op with
   | .register cls name => ({ w with regs := w.regs ++ [(cls, name, T.defaultDestr cls)] }, .ok)
@@ -634,6 +660,7 @@ def step (P : Params V) (T : Tables) (w : World V) (op : Op) : World V × Res :=
   | .delGlyph name => doDelGlyph T w name
   | .rename old new => doRename T w old new
   | .gset meth => doGset T w meth
+  | .touch o meth => doTouch T w o meth
 
 def run (P : Params V) (T : Tables) (w : World V) (ops : List Op) : World V :=
   ops.foldl (fun w op => (step P T w op).1) w
